@@ -125,6 +125,16 @@ var table = []comp{
 	{"JSONScript", func() templ.Component { return templ.JSONScript("data", map[string]any{"a": "</script>", "n": 1}) }},
 	{"JSFuncCall", func() templ.Component { return templ.JSFuncCall("console.log", "it's", 2) }},
 	{"Nop", func() templ.Component { return templ.NopComponent }},
+	// a once handle that is a fresh zero value (not made by NewOnceHandle), used three times in the
+	// document: when the component value is shared, all goroutines make its first use together
+	{"FreshZeroOnce", func() templ.Component {
+		h := new(templ.OnceHandle)
+		inner := templ.Raw("<i>once</i>")
+		one := templ.ComponentFunc(func(ctx context.Context, w io.Writer) error {
+			return h.Once().Render(templ.WithChildren(ctx, inner), w)
+		})
+		return fx.WrapGen(templ.Join(one, templ.Raw("<hr>"), one, one))
+	}},
 }
 
 var errW = errors.New("writer failed deliberately")
